@@ -1,15 +1,15 @@
 SPECIFICATION Spec
 CONSTANTS
-  Ls <- LsS
+  Ls <- LsTwo
   Bszs <- BszAll
   D = 2
   Caps <- CapsS
   B0s <- B0S
   Modes <- ModesAll
   MaxSweeps = 2
-  MinExtra = 1
+  MinExtra = 0
   Ranks = "max"
-  Mutant = "none"
+  Mutant = "unbound_i"
   Emit = FALSE
-INVARIANT EndNormalizedAnyCap
+INVARIANT PosInRange
 CHECK_DEADLOCK FALSE
